@@ -129,6 +129,25 @@ def graph_walk(ctx, gwy, meta: dict[str, Any]) -> None:
                 "a device names a parent that does not list it among its children",
                 {"device": str(d), "parent": str(p), "history": meta},
             )
+    # single-holder roles (appliance control, DHW sensor, DHW / heating valve): a device that believes it holds the
+    # role is the one its parent reports - else two devices hold one role and the schema shows only one of them
+    for d in gwy.devices:
+        p = getattr(d, "_parent", None)
+        cid = getattr(d, "_child_id", None)
+        if p is None or cid not in ("FC", "F9", "FA"):
+            continue
+        slot = {"FC": "_app_cntrl", "F9": "_htg_valve", "FA": "_dhw_valve"}[cid]
+        if not hasattr(p, slot):
+            continue
+        ctx.count("graph.role_holders")
+        holder = getattr(p, slot)
+        # (FA is the index of both the DHW sensor and the DHW valve: either slot will do)
+        if holder is not d and not (cid == "FA" and getattr(p, "_dhw_sensor", None) is d):
+            ctx.violate(
+                f"C15|graph|two-holders-of-one-role|{slot.strip('_')}",
+                "a device holds a single-holder role of its parent (its own parent / role reference say so) while the parent reports another device in that role",
+                {"device": str(d), "role": slot.strip("_"), "parent": str(p), "parent_reports": str(holder), "history": meta},
+            )
     for tcs in gwy.systems:
         for z in tcs.zones:
             s = getattr(z, "sensor", None)
